@@ -30,6 +30,8 @@ func init() {
 		Rule{ID: "R01g", Doc: "the decoder is given exactly the received bytes, never the rest of a recycled buffer (shared with C01)", Floor: 8, AllVariants: true, Run: r01g},
 		Rule{ID: "R20h", Doc: "pooled buffers are not handed to slice-retaining library calls and then released", Floor: 5, AllVariants: true, Run: r20h},
 		Rule{ID: "R20i", Doc: "a decoded value handed to its record is not released again by the decoder", Floor: 8, AllVariants: true, Run: r20i},
+		Rule{ID: "R20j", Doc: "a struct overlaid on a non-zeroed buffer is written completely", Floor: 3, Run: r20j},
+		Rule{ID: "R07d", Doc: "cache values are copied under the entry lock (the lock is what keeps releaseEntry from recycling the buffer; shared with C07)", Floor: 8, Run: r07d},
 	)
 }
 
@@ -283,6 +285,18 @@ func r20a(c *core.Ctx) {
 					// inside a release function: uses after Put are still violations
 				}
 				var viol []string
+				// a release registered with defer before this call runs again at exit: double release
+				for _, dc := range core.Calls(fn) {
+					d, isD := dc.(*ssa.Defer)
+					if !isD || !reachableFrom(fn, d, call) {
+						continue
+					}
+					for _, rx := range releasedArgs(d, sum) {
+						if aliasOf(rx, x) || sameBuffer(rx, x) {
+							viol = append(viol, fmt.Sprintf("released again by the deferred %s registered at %s", shortCallee(d), c.Rel(d.Pos())))
+						}
+					}
+				}
 				for _, u := range aliasUses(fn, x) {
 					if u == call.(ssa.Instruction) {
 						continue
